@@ -686,6 +686,35 @@ impl<'a> VisitMut for Rules<'a> {
             }
             b.stmts = out;
         }
+        if self.ctx.on("R61") {
+            // R61a: `let X = A.iter().enumerate().filter(..);` (a lazy adaptor: nothing runs until it is consumed) is substituted into the later
+            // expressions that consume X, provided X is not declared `mut`
+            let mut i = 0;
+            while i < b.stmts.len() {
+                let mut subst: Option<(String, syn::Expr)> = None;
+                if let syn::Stmt::Local(l) = &b.stmts[i] {
+                    if let (syn::Pat::Ident(pid), Some(init)) = (&l.pat, &l.init) {
+                        if pid.mutability.is_none() && init.diverge.is_none() {
+                            if let syn::Expr::MethodCall(fl) = &*init.expr {
+                                if fl.method == "filter" {
+                                    if let syn::Expr::MethodCall(en) = &*fl.receiver {
+                                        if en.method == "enumerate" { subst = Some((pid.ident.to_string(), (*init.expr).clone())); }
+                                    }
+                                }
+                            }
+                        }
+                    }
+                }
+                if let Some((name, ex)) = subst {
+                    b.stmts.remove(i);
+                    let mut pr = PathReplacer { ident: name, rep: ex };
+                    for st in b.stmts.iter_mut().skip(i) { pr.visit_stmt_mut(st); }
+                    self.ctx.used("R61");
+                } else {
+                    i += 1;
+                }
+            }
+        }
         if self.ctx.on("R57") {
             // R57: statement `V.retain(|P| BODY);` on a vector listed in opts.retain_vecs (a `&mut Vec` parameter) -> position loop: the closure runs
             // once per element in index order, the elements it accepts are kept in order (documented contract of Vec::retain); state captured by
@@ -1505,6 +1534,164 @@ impl<'a> VisitMut for Rules<'a> {
                 self.ctx.used("R46");
                 syn::visit_mut::visit_expr_mut(self, e);
                 return;
+            }
+        }
+        if self.ctx.on("R61") {
+            // R61: a filtered enumeration consumed by `min` / `min_by` (std definitions: both fold over the items in order and replace the current
+            // choice only when it compares Greater than the new item; `filter` sees references to the items):
+            //   `A.iter().enumerate().filter(|(i, c)| C).map(|(j, _)| j).min()`                      -> smallest accepted index
+            //   `A.iter().enumerate().filter(|(i, c)| C).min_by(|(_, c1), (_, c2)| CMP).map(|(j, _)| j)` -> index of the first minimum under CMP
+            fn enum_filter(e: &syn::Expr) -> Option<(syn::Expr, syn::Pat, syn::Pat, syn::Expr)> {
+                let syn::Expr::MethodCall(fl) = e else { return None };
+                if fl.method != "filter" || fl.args.len() != 1 { return None; }
+                let syn::Expr::Closure(fc) = &fl.args[0] else { return None };
+                let syn::Expr::MethodCall(en) = &*fl.receiver else { return None };
+                if en.method != "enumerate" || !en.args.is_empty() || fc.inputs.len() != 1 { return None; }
+                let syn::Expr::MethodCall(it) = &*en.receiver else { return None };
+                if it.method != "iter" || !it.args.is_empty() { return None; }
+                let fpat = match &fc.inputs[0] { syn::Pat::Type(pt) => (*pt.pat).clone(), p => p.clone() };
+                let syn::Pat::Tuple(ft) = &fpat else { return None };
+                if ft.elems.len() != 2 { return None; }
+                Some(((*it.receiver).clone(), ft.elems[0].clone(), ft.elems[1].clone(), (*fc.body).clone()))
+            }
+            fn index_projection(e: &syn::Expr) -> bool {
+                // |(j, _)| j
+                let syn::Expr::Closure(c) = e else { return false };
+                if c.inputs.len() != 1 { return false; }
+                let p = match &c.inputs[0] { syn::Pat::Type(pt) => (*pt.pat).clone(), p => p.clone() };
+                let syn::Pat::Tuple(t) = &p else { return false };
+                if t.elems.len() != 2 || !matches!(t.elems[1], syn::Pat::Wild(_)) { return false; }
+                let (syn::Pat::Ident(pi), syn::Expr::Path(bp)) = (&t.elems[0], &*c.body) else { return false };
+                bp.path.is_ident(&pi.ident)
+            }
+            let mut rep: Option<syn::Expr> = None;
+            if let syn::Expr::MethodCall(top) = &*e {
+                // form 1: X.map(|(j, _)| j).min()
+                if top.method == "min" && top.args.is_empty() {
+                    if let syn::Expr::MethodCall(mp) = &*top.receiver {
+                        if mp.method == "map" && mp.args.len() == 1 && index_projection(&mp.args[0]) {
+                            if let Some((a, f0, f1, cond)) = enum_filter(&mp.receiver) {
+                                let k = self.ctx.fresh();
+                                let nn = syn::Ident::new(&format!("vx_n{}", k), proc_macro2::Span::call_site());
+                                let ii = syn::Ident::new(&format!("vx_i{}", k), proc_macro2::Span::call_site());
+                                let bb = syn::Ident::new(&format!("vx_best{}", k), proc_macro2::Span::call_site());
+                                let kp = syn::Ident::new(&format!("vx_keep{}", k), proc_macro2::Span::call_site());
+                                rep = Some(syn::parse_quote!({
+                                    let mut #bb: Option<usize> = None;
+                                    let #nn = #a.len();
+                                    for #ii in 0..#nn {
+                                        let #kp = { let #f0 = &#ii; let #f1 = &&#a[#ii]; #cond };
+                                        if #kp {
+                                            #bb = match #bb { None => Some(#ii), Some(vx_b) => if vx_b > #ii { Some(#ii) } else { Some(vx_b) } };
+                                        }
+                                    }
+                                    #bb
+                                }));
+                            }
+                        }
+                    }
+                }
+                // form 2: X.min_by(|(_, c1), (_, c2)| CMP).map(|(j, _)| j)
+                if top.method == "map" && top.args.len() == 1 && index_projection(&top.args[0]) {
+                    if let syn::Expr::MethodCall(mb) = &*top.receiver {
+                        if mb.method == "min_by" && mb.args.len() == 1 {
+                            if let (Some((a, f0, f1, cond)), syn::Expr::Closure(cc)) = (enum_filter(&mb.receiver), &mb.args[0]) {
+                                if cc.inputs.len() == 2 {
+                                    let second = |p: &syn::Pat| -> Option<syn::Pat> {
+                                        let p = match p { syn::Pat::Type(pt) => (*pt.pat).clone(), p => p.clone() };
+                                        if let syn::Pat::Tuple(t) = &p { if t.elems.len() == 2 && matches!(t.elems[0], syn::Pat::Wild(_)) { return Some(t.elems[1].clone()); } }
+                                        None
+                                    };
+                                    if let (Some(c1), Some(c2)) = (second(&cc.inputs[0]), second(&cc.inputs[1])) {
+                                        let cmp = (*cc.body).clone();
+                                        let k = self.ctx.fresh();
+                                        let nn = syn::Ident::new(&format!("vx_n{}", k), proc_macro2::Span::call_site());
+                                        let ii = syn::Ident::new(&format!("vx_i{}", k), proc_macro2::Span::call_site());
+                                        let bb = syn::Ident::new(&format!("vx_best{}", k), proc_macro2::Span::call_site());
+                                        let kp = syn::Ident::new(&format!("vx_keep{}", k), proc_macro2::Span::call_site());
+                                        rep = Some(syn::parse_quote!({
+                                            let mut #bb: Option<usize> = None;
+                                            let #nn = #a.len();
+                                            for #ii in 0..#nn {
+                                                let #kp = { let #f0 = &#ii; let #f1 = &&#a[#ii]; #cond };
+                                                if #kp {
+                                                    #bb = match #bb {
+                                                        None => Some(#ii),
+                                                        Some(vx_b) => {
+                                                            let #c1 = &#a[vx_b];
+                                                            let #c2 = &#a[#ii];
+                                                            match #cmp { core::cmp::Ordering::Greater => Some(#ii), _ => Some(vx_b) }
+                                                        }
+                                                    };
+                                                }
+                                            }
+                                            #bb
+                                        }));
+                                    }
+                                }
+                            }
+                        }
+                    }
+                }
+            }
+            if let Some(new) = rep {
+                *e = new;
+                self.ctx.used("R61");
+                syn::visit_mut::visit_expr_mut(self, e);
+                return;
+            }
+        }
+        if self.ctx.on("R60") {
+            // R60: `A.iter().enumerate().filter(|(i, a)| C).map(|(j, b)| E).collect()` -> index loop: for every position in order, if C holds for
+            // (&k, &&A[k]) the value E for (k, &A[k]) is pushed (std definitions of enumerate / filter / map / collect; filter sees references to the items)
+            if let syn::Expr::MethodCall(col) = e {
+                if col.method == "collect" && col.args.is_empty() {
+                    if let syn::Expr::MethodCall(map) = &*col.receiver {
+                        if map.method == "map" && map.args.len() == 1 {
+                            if let (syn::Expr::Closure(mc), syn::Expr::MethodCall(fl)) = (&map.args[0], &*map.receiver) {
+                                if fl.method == "filter" && fl.args.len() == 1 && mc.inputs.len() == 1 {
+                                    if let (syn::Expr::Closure(fc), syn::Expr::MethodCall(en)) = (&fl.args[0], &*fl.receiver) {
+                                        if en.method == "enumerate" && en.args.is_empty() && fc.inputs.len() == 1 {
+                                            if let syn::Expr::MethodCall(it) = &*en.receiver {
+                                                let fpat = match &fc.inputs[0] { syn::Pat::Type(pt) => (*pt.pat).clone(), p => p.clone() };
+                                                let mpat = match &mc.inputs[0] { syn::Pat::Type(pt) => (*pt.pat).clone(), p => p.clone() };
+                                                if let (true, syn::Pat::Tuple(ft), syn::Pat::Tuple(mt)) = (it.method == "iter" && it.args.is_empty(), &fpat, &mpat) {
+                                                    if ft.elems.len() == 2 && mt.elems.len() == 2 {
+                                                        let a = (*it.receiver).clone();
+                                                        let (f0, f1) = (ft.elems[0].clone(), ft.elems[1].clone());
+                                                        let (m0, m1) = (mt.elems[0].clone(), mt.elems[1].clone());
+                                                        let (fbody, mbody) = ((*fc.body).clone(), (*mc.body).clone());
+                                                        let k = self.ctx.fresh();
+                                                        let nn = syn::Ident::new(&format!("vx_n{}", k), proc_macro2::Span::call_site());
+                                                        let ii = syn::Ident::new(&format!("vx_i{}", k), proc_macro2::Span::call_site());
+                                                        let oo = syn::Ident::new(&format!("vx_fc{}", k), proc_macro2::Span::call_site());
+                                                        let kp = syn::Ident::new(&format!("vx_keep{}", k), proc_macro2::Span::call_site());
+                                                        *e = syn::parse_quote!({
+                                                            let mut #oo = Vec::new();
+                                                            let #nn = #a.len();
+                                                            for #ii in 0..#nn {
+                                                                let #kp = { let #f0 = &#ii; let #f1 = &&#a[#ii]; #fbody };
+                                                                if #kp {
+                                                                    let #m0 = #ii;
+                                                                    let #m1 = &#a[#ii];
+                                                                    #oo.push(#mbody);
+                                                                }
+                                                            }
+                                                            #oo
+                                                        });
+                                                        self.ctx.used("R60");
+                                                        syn::visit_mut::visit_expr_mut(self, e);
+                                                        return;
+                                                    }
+                                                }
+                                            }
+                                        }
+                                    }
+                                }
+                            }
+                        }
+                    }
+                }
             }
         }
         if self.ctx.on("R59") {
